@@ -544,6 +544,9 @@ Section Reader.
     else if (rdtype =? 106) || (rdtype =? 104) then Some [FFix 2; FFix 8]
     else if rdtype =? 13 then Some [FCnt8; FCnt8]
     else if rdtype =? 19 then Some [FCnt8]
+    (* LP; TKEY: uncompressed names that keep their case (repo commits 4d820d6, 3aeb81b) *)
+    else if rdtype =? 107 then Some [FFix 2; FNameX]
+    else if rdtype =? 249 then Some [FNameX; FFix 12; FCnt16; FCnt16]
     (* DNAME; NSEC; BRID HHIT *)
     else if rdtype =? 39 then Some [FNameX]
     else if rdtype =? 47 then Some [FNameX; FChk 4]
